@@ -35,7 +35,8 @@ META = {
         ' Also: reduce_whitespace repeats its substitutions until stable whenever they feed each other (decided on the constant patterns), fix-point loops compare one pass with the next (tri-state), scan cursors advance on every path (path-sensitive).'
         ' Round 8: every return of plss_preprocess went through reduce_whitespace.'
         ' Round 9: pass_back_halves makes progress (no oscillating fix point).'
-        ' Round 10: every description staged in _parse_meaningful is a cleanup_desc() result (keeps trailing separator runs, on which the list patterns are exponential, away from the Tract parser).'),
+        ' Round 10: every description staged in _parse_meaningful is a cleanup_desc() result (keeps trailing separator runs, on which the list patterns are exponential, away from the Tract parser).'
+        ' Round 11: every stage of the whitespace / Twp/Rge normalisation reads the result of the stage before it (no dead store).'),
     'assumptions': [
         "sre is a backtracking matcher whose work is bounded by the number of "
         "distinct paths of the position automaton on the input",
@@ -87,6 +88,14 @@ def check(ctx):
                     f"the continuation fails after every number of iterations",
                     key=f"RX-AMB|{name}|EDA|{e['signature']}",
                     where=r['where'], witness=e['witness'])
+        if res.get('ws_pump'):
+            bad = True
+            w = res['ws_pump']
+            ctx.violation(
+                'RX-AMB', f"{name}: no exponential ambiguity on blanks alone",
+                f"a run of whitespace by itself ({w['pump']!r} repeated) can be split in exponentially many ways in loop "
+                f"{w['loop'][:120]}, and the continuation fails after each: ~25 blanks / blank lines after a number stall the parse",
+                key=f"RX-AMB|{name}|EDA|whitespace-pump", where=r['where'], witness=w['witness'])
         ida = res['ida']
         if ida and ida['degree'] >= IDA_THRESHOLD and ida['verdict'] == 'exploitable':
             bad = True
@@ -109,6 +118,10 @@ def check(ctx):
     ctx.attempt(_whitespace_normal_form)
     ctx.attempt(_whitespace_before_everything)
     ctx.attempt(_staged_desc_is_cleaned)
+    # every stage of the whitespace / Twp/Rge normalisation works on the result of the stage before it
+    # (a computed text that is never read means a stage is skipped: runs of blanks survive)
+    from .forward import dead_stores
+    ctx.attempt(dead_stores, [f for f in ctx.repo.funcs.values() if f.module.name.endswith(('plssdesc.plss_preprocess', 'tract.tract_preprocess'))])
     from .c02 import pass_back_makes_progress       # a pass that undoes itself never reaches the fixed point
     ctx.attempt(pass_back_makes_progress)
     ctx.attempt(_fixpoint)
@@ -410,7 +423,7 @@ def _staged_desc_is_cleaned(ctx):
             arg = c.args[0]
             if not isinstance(arg, ast.Name):
                 pv = flow.provenance(fi.node, arg)
-                ok = any(x.split('.')[-1] == 'cleanup_desc' for x in flow.prov_calls(pv))
+                ok = any(x.split('.')[-1] == common.cleanup_name(ctx) for x in flow.prov_calls(pv))
                 n += 1
                 ctx.shape(ok, 'FIXPOINT', f"{fi.qualname}: the staged description went through cleanup_desc()",
                           why=f"`{norm(arg)[:40]}` is not a plain name; paths not followed")
@@ -420,7 +433,7 @@ def _staged_desc_is_cleaned(ctx):
             raw = []
             for d in ds:
                 val = rd.defs[d]
-                cleaned = isinstance(val, ast.Call) and (dotted(val.func) or '').split('.')[-1] == 'cleanup_desc'
+                cleaned = isinstance(val, ast.Call) and (dotted(val.func) or '').split('.')[-1] == common.cleanup_name(ctx)
                 if not cleaned:
                     raw.append(d)
             n += 1
